@@ -54,12 +54,13 @@ KINDS = {
     "LE": dict(span=None, bx="bx1"),
     "LT": dict(span=None, stale=True, bx="bx1"),  # barcode, no variant of its own, stale tags from an earlier run
     "LF": dict(span=(2, 3), hap=1, bx="bx1"),  # same barcode, 80 bp to the right of LA, the other haplotype
-    "NM": dict(unmapped=True, placed=True, mate_of_prev=True),  # unmapped mate placed at (and named like) the previous alignment
+    "NM": dict(unmapped=True, placed=True, mate_of_prev=True),
+    "MB": dict(mate=True, span=None, other_contig=True, stale=True),  # mate of the previous read on the contig without variants, with stale tags  # unmapped mate placed at (and named like) the previous alignment
 }
-NEEDS_PREV = {"M", "S", "X", "NM"}
+NEEDS_PREV = {"M", "S", "X", "NM", "MB"}
 
 
-def make_alignments(kinds, seq, variants):
+def make_alignments(kinds, seq, variants, seq_b=None):
     """list of alignment dicts + meta (per alignment: name, covered variant -> observed allele, flags)"""
     alns, meta = [], []
     prev = None
@@ -115,7 +116,12 @@ def make_alignments(kinds, seq, variants):
                 alleles[vi] = al
                 obs[vi] = al
         q, cig = synth.hap_read(seq, variants, alleles, start, end)
-        a = {"name": name, "chrom": "chrA", "start": start, "cigar": cig, "seq": q, "rg": spec.get("rg", "rg_S1") if k not in NEEDS_PREV else m["rg"], "tags": []}
+        on = "chrA"
+        if spec.get("other_contig"):
+            on, start, end = "chrB", 60 + i, 90 + i
+            q, cig = seq_b[start:end], [(0, end - start)]
+            m["other_contig"] = True
+        a = {"name": name, "chrom": on, "start": start, "cigar": cig, "seq": q, "rg": spec.get("rg", "rg_S1") if k not in NEEDS_PREV else m["rg"], "tags": []}
         if "rg" in spec and spec["rg"] is None:
             a["rg"] = None
         m["rg"] = a["rg"]
@@ -173,7 +179,7 @@ def build(inst, d, swap_set=None):
         vcf.add("chrA", v.pos, v.ref, v.alts, calls, fmt=["GT", "PS"])
     vcf_path = vcf.write(os.path.join(d, "phased.vcf.gz" if swap_set is None else "swapped.vcf.gz"))
     fasta = synth.write_fasta(os.path.join(d, "ref.fa"), [("chrA", seq), ("chrB", synth.make_reference(seed + 1, 200))])
-    alns, meta = make_alignments(inst["kinds"], seq, variants)
+    alns, meta = make_alignments(inst["kinds"], seq, variants, synth.make_reference(seed + 1, 200))
     bam = os.path.join(d, "in.bam")
     order = synth.write_bam(bam, [("chrA", len(seq)), ("chrB", 200)], alns, read_groups=[{"ID": "rg_S1", "SM": "S1"}, {"ID": "rg_S2", "SM": "S2"}])
     return vcf_path, fasta, bam, [meta[i] for i in order]
@@ -254,6 +260,8 @@ def judge(inst):
     for m in meta:
         if m.get("unmapped"):
             continue
+        if m.get("other_contig"):
+            continue  # a contig is processed on its own: the mate over there shares nothing with this contig's variants
         names.setdefault(m["name"], []).append(m)
     linked = any(m.get("bx") for m in meta) and not kw.get("ignore_linked_read", False)
     nontrivial = False
@@ -265,6 +273,10 @@ def judge(inst):
         if m.get("unmapped") or m.get("secondary") or (m.get("supp") and not kw.get("tag_supplementary")):
             if t:
                 viols.append(V("tagged-ignored", f"{m['kind']} alignment {m['name']} carries {t}"))
+            continue
+        if m.get("other_contig"):
+            if t:
+                viols.append(V("tagged-without-variant", f"alignment {m['name']} on the contig without variants carries {t}"))
             continue
         grp = names[m["name"]]
         # which sample's phasing applies
@@ -497,7 +509,7 @@ def space(tier):
             for k_ in kinds:
                 if k_ not in NEEDS_PREV:
                     mates = 0
-                elif k_ in ("M", "NM"):
+                elif k_ in ("M", "NM", "MB"):
                     mates += 1
                     bad = bad or mates > 1
             if bad:
